@@ -135,6 +135,23 @@ pub fn generate(tier: Tier, rng: &mut Rng) -> Vec<Case> {
     // keys at the edges of their ranges: negative ints, uints beyond i64, the i64 extremes, empty and
     // non-ASCII strings (the int/uint twin lookup must not disturb keys that have no twin)
     map_cases(&mut out, tier, &EXTREME, &EXTREME_QUERIES, 2);
+    // field names that are also names of registered functions: `has`, `in`, `contains` and
+    // indexing must agree there too (selection falls back to a function value, `has` must not)
+    for fname in ["size", "min", "max", "contains", "string", "int", "matches", "startsWith", "duration", "getHours"] {
+        for present in [false, true] {
+            let lit = if present { format!("{{'{fname}': 1, 'other': 2}}") } else { "{'other': 2}".to_string() };
+            let mut hm = HashMap::new();
+            hm.insert(Key::String(Arc::new("other".into())), Value::Int(2));
+            if present {
+                hm.insert(Key::String(Arc::new(fname.to_string())), Value::Int(1));
+            }
+            let mut spec = CtxSpec::default_ctx();
+            spec.vars.push(("m".into(), Value::Map(Map { map: Arc::new(hm) })));
+            for (sp, m) in [(&default, lit.clone()), (&spec, "m".to_string())] {
+                push(&mut out, sp, format!("[has({m}.{fname}), '{fname}' in {m}, {m}.contains('{fname}'), {m}['{fname}'] != null]"), Some(format!("(ok (list {0} {0} {0} {0}))", b(present))), vec!["map", "function-named-field"]);
+            }
+        }
+    }
     // lists: every index in -2..len+1 and the i64 extremes
     let vals = [7i64, -8, 9, 0];
     for len in 0..=4usize {
@@ -175,6 +192,19 @@ pub fn generate(tier: Tier, rng: &mut Rng) -> Vec<Case> {
         cat.extend(&lb);
         let tag = if cat.is_empty() { "empty" } else { "list" };
         push(&mut out, &spec, "[size(x + y) == size(x) + size(y), x + y, x, y, (x + y) + x]".into(), Some(format!("(ok (list (bool 1) (list{}) (list{}) (list{}) (list{}{})))", ints(&cat), ints(&la), ints(&lb), ints(&cat), ints(&la))), vec![tag, "additive"]);
+        // the same with every mix of operand provenance: literal / variable / computed temporary
+        // (a uniquely owned operand invites in-place reuse of its buffer), lengths up to 6
+        let lc: Vec<i64> = (0..rng.below(7)).map(|_| rng.range(10, 40)).collect();
+        let lsrc = |v: &[i64]| format!("[{}]", v.iter().map(|i| if *i < 0 { format!("({i})") } else { i.to_string() }).collect::<Vec<_>>().join(", "));
+        let forms = |name: &str, v: &[i64]| -> Vec<String> { vec![name.to_string(), lsrc(v), format!("{}.map(e, e)", lsrc(v)), format!("({} + [])", name)] };
+        for a in forms("x", &la) {
+            for b2 in forms("y", &lb).into_iter().chain([lsrc(&lc)]) {
+                let bv: &Vec<i64> = if b2 == lsrc(&lc) { &lc } else { &lb };
+                let mut cat2 = la.clone();
+                cat2.extend(bv);
+                push(&mut out, &spec, format!("[{a} + {b2}, x, y]"), Some(format!("(ok (list (list{}) (list{}) (list{})))", ints(&cat2), ints(&la), ints(&lb))), vec![if cat2.is_empty() { "empty" } else { "list" }, "concat-forms"]);
+            }
+        }
         let probe = rng.range(-3, 3);
         let psrc = if probe < 0 { format!("({probe})") } else { probe.to_string() };
         push(&mut out, &spec, format!("[{psrc} in x, x.exists(e, e == {psrc}), x.contains({psrc})]"), Some(format!("(ok (list {0} {0} {0}))", b(la.contains(&probe)))), vec![tag, "membership"]);
